@@ -7,7 +7,8 @@ Module C05.
    (stagemaker -list system / -list stage: exit status and stdout lines) *)
 Record obs := MkObs {
   o_sys : res (list bytes); o_stage : res (list bytes);
-  o_bin_sys : res (list bytes); o_bin_stage : res (list bytes) }.
+  o_bin_sys : res (list bytes); o_bin_stage : res (list bytes);
+  o_bin_stage2 : res (list bytes) }.    (* the same tree built again in the reverse directory-creation order on another file system *)
 Record case := MkCase {
   c_root : bytes;                 (* the build root (absolute) *)
   c_fs : pfs;                     (* the profile tree *)
@@ -28,7 +29,8 @@ Definition lres_beq (a b : res (list bytes)) : bool :=
   end.
 Definition obs_beq (a b : obs) : bool :=
   lres_beq (o_sys a) (o_sys b) && lres_beq (o_stage a) (o_stage b)
-  && lres_beq (o_bin_sys a) (o_bin_sys b) && lres_beq (o_bin_stage a) (o_bin_stage b).
+  && lres_beq (o_bin_sys a) (o_bin_sys b) && lres_beq (o_bin_stage a) (o_bin_stage b)
+  && lres_beq (o_bin_stage2 a) (o_bin_stage2 b).
 
 (* ------------------------------------------------------------------ the model *)
 Definition model_sys (c : case) : res ued := system_set (c_fs c) (c_dict c) (c_profile c) (c_atoms c).
@@ -41,7 +43,7 @@ Definition model (c : case) : obs :=
                | ROk u => stage_set (c_vdb c) (c_enum c) (c_bdeps c) (map snd u)
                | RFailed => RFailed | RPanic => RPanic | RDiverge => RDiverge
                end in
-  MkObs sys stage sys stage.
+  MkObs sys stage sys stage stage.
 
 (* ------------------------------------------------------------------ the specification
    Written from the property text and the stagemaker manual, not from the code. *)
@@ -340,7 +342,9 @@ Definition spec (c : case) (o : obs) : bool :=
   spec_sys c (o_sys o) && spec_sys c (o_bin_sys o)
   && spec_stage (c_vdb c) (c_bdeps c) (spec_request c) (o_stage o)
   && spec_stage (c_vdb c) (c_bdeps c) (spec_request c) (o_bin_stage o)
-  && lres_beq (o_stage o) (o_bin_stage o).
+  && lres_beq (o_stage o) (o_bin_stage o)
+  (* the result does not depend on the directory-enumeration order *)
+  && lres_beq (o_stage o) (o_bin_stage2 o).
 
 (* ------------------------------------------------------------------ well-formedness *)
 Definition is_perm_ids (n : nat) (l : list N) : bool :=
